@@ -107,8 +107,9 @@ def check_guard_span(ctx, tu, info, q, rule, only_with_putback=False):
             continue    # nothing is put back without a notify: the guard span matters for emptiness reporting only
         inv = invoke_calls(info, f)
         inv_after = [n for n in inv if any(f.pos_reaches(t['pos'], f.pos(n)) for t in takes)]
-        if not inv_after:
-            continue    # takeEvent / clearEvents: events are taken or cleared, not dispatched
+        back = [w for w in putbacks if any(f.pos_reaches(t['pos'], w['pos']) for t in takes)]
+        if not inv_after and not back:
+            continue    # takeEvent / clearEvents: exactly what is taken is consumed at once, nothing is pending elsewhere meanwhile
         si = info.scopes(f)
         guards = [(pos, p, var) for (pos, kind, p, var, n) in si.acquires if kind == 'guard' and last_field(p) == 'queueEmptyCounter']
         ok_enter = bool(guards) and all(any(f.pos_dominates(g[0], t['pos']) for g in guards) for t in takes)
